@@ -3,7 +3,9 @@
 //!   implrun run <ID> --cases FILE --impl FILE        (re-run given case lines, e.g. the corpus)
 mod common;
 mod probe;
+mod pgen;
 mod astwalk;
+mod c04;
 mod c05;
 mod c06;
 mod c07;
@@ -32,6 +34,7 @@ fn gen_all(id: &str, seed: u64, n: usize, thorough: bool) -> Vec<String> {
         "C15" => c15::gen_cases(seed, n, thorough),
         "C09" => c09::gen_cases(seed, n, thorough),
         "C12" => c12::gen_cases(seed, n, thorough),
+        "C04" => c04::gen_cases(seed, n, thorough),
         "C18" => c18::gen_cases(seed, n, thorough),
         "C05" => c05::gen_cases(seed, n, thorough),
         "C17" => c17::gen_cases(seed, n, thorough),
@@ -52,6 +55,7 @@ fn run_line(id: &str, line: &str) -> String {
         "C15" => c15::run_line(line),
         "C09" => c09::run_line(line),
         "C12" => c12::run_line(line),
+        "C04" => c04::run_line(line),
         "C18" => c18::run_line(line),
         "C05" => c05::run_line(line),
         "C17" => c17::run_line(line),
@@ -78,6 +82,10 @@ fn main() {
     }
     if args[1] == "ast" {
         println!("{}", c09::dump(&args[2]));
+        return;
+    }
+    if args[1] == "pgen" {
+        print!("{}", pgen::generate(args[2].parse().unwrap(), args.get(3).and_then(|x| x.parse().ok()).unwrap_or(12)));
         return;
     }
     if args[1] == "probe" {
